@@ -21,8 +21,8 @@ func init() {
 			"(in-out-wiring) the pass-through / map-key helper derivations take each field from the same-role field of the right side; " +
 			"(same-handlers-both-arms) the three handler managers run the same handler list in the stream arm and in the value arm, the value arm propagating errors; " +
 			"(key-wrappers) input/output key wrappers replace both .i and .t and the helper; " +
-			"(no-compile-time-stream) no single-use stream created at compile time is captured by a reusable run-time handler.",
-		decided:    []string{"derivation-total", "adapter-shape", "failure-agreement", "pair-complete", "in-out-wiring", "same-handlers-both-arms", "key-wrappers", "no-compile-time-stream"},
+			"(stream-substrate) the copy/merge machinery the streaming paradigms run on keeps positions, closes all sources and dispatches consistently (shared with C08); (no-compile-time-stream) no single-use stream created at compile time is captured by a reusable run-time handler.",
+		decided:    []string{"derivation-total", "adapter-shape", "failure-agreement", "pair-complete", "in-out-wiring", "same-handlers-both-arms", "key-wrappers", "stream-substrate", "no-compile-time-stream"},
 		notDecided: []string{"value equality of the outputs across paradigms", "chunking independence (C14)", "behaviour of user node implementations"},
 		run:        runC04,
 	})
@@ -378,6 +378,13 @@ func runC04(w *World, r *Report) {
 		}
 		r.Check(set["i"] && set["t"] && set["genericHelper"] && set[tfield], "C04.key-wrappers", n, f.Pos(), "i, t, genericHelper and "+tfield+" replaced", "the key wrapper covers only one paradigm (the other still sees the unkeyed value)")
 	}
+
+	// ---- stream-substrate: the copy / merge machinery every streaming paradigm runs on
+	r.Rule("C04.stream-substrate", "stream copy and merge machinery: array copies inherit the position, merge dispatch boundary consistent, merged Close closes all, copy cells under Once with last-close", 8)
+	arrayCopyCheck(w, r, "C04.stream-substrate")
+	mergeDispatchCheck(w, r, "C04.stream-substrate")
+	mergedCloseAll(w, r, "C04.stream-substrate")
+	copyCellChecks(w, r, "C04.stream-substrate")
 
 	// ---- no-compile-time-stream
 	r.Rule("C04.no-compile-time-stream", "run-time handler literals created at compile time capture no stream object", 1)
